@@ -38,8 +38,9 @@ write stores the same value, so order and repetition do not matter).
 -/
 namespace Aoe.Heap
 
-abbrev Addr := Nat
-abbrev Uid := Nat
+/-- addresses and scenario UUIDs are natural numbers (notations, so that arithmetic tactics see `Nat`) -/
+notation "Addr" => Nat
+notation "Uid" => Nat
 
 /-- `NO_UUID` -/
 def noUuid : Uid := 0
